@@ -331,14 +331,14 @@ func c09Sched(c *vrep.Ctx) {
 		return cl
 	}
 	inputs := [][]byte{
-		[]byte("zqa aa bb cc dd ee ff gg hh zqb"),                 // exact A, near B
-		[]byte("aa bb cc dd zqx ff gg ii jj\ncopyright 2000 x"),    // edited B + notice
-		[]byte("zqa zqb zqc"),                                      // OOV only
-		[]byte("kk ll mm nn oo aa bb cc dd ee ff gg hh"),           // two documents
-		[]byte("aa bb cc dd ee ff gg hh"),                          // bare copy of A: no longer than the documents
-		[]byte("aa bb cc dd ee ff gg ii"),                          // bare near-copy of B
-		[]byte("pp aa bb cc dd ee ff gg hh"),                       // the shorter-than-q document followed by A
-		[]byte("pp"),                                               // the shorter-than-q document alone
+		[]byte("zqa aa bb cc dd ee ff gg hh zqb"),               // exact A, near B
+		[]byte("aa bb cc dd zqx ff gg ii jj\ncopyright 2000 x"), // edited B + notice
+		[]byte("zqa zqb zqc"),                                   // OOV only
+		[]byte("kk ll mm nn oo aa bb cc dd ee ff gg hh"),        // two documents
+		[]byte("aa bb cc dd ee ff gg hh"),                       // bare copy of A: no longer than the documents
+		[]byte("aa bb cc dd ee ff gg ii"),                       // bare near-copy of B
+		[]byte("pp aa bb cc dd ee ff gg hh"),                    // the shorter-than-q document followed by A
+		[]byte("pp"),                                            // the shorter-than-q document alone
 	}
 	// inputs 8 and 9: the same 5 KB of unrelated words, then DIFFERENT documents, equal byte length
 	// (anything keyed by a prefix, a length or a cheap digest of the input cannot tell them apart)
